@@ -347,13 +347,15 @@ impl Scenario for AeadFlow {
         t.set_p("recv_seed", rng.data_seed());
         let big = tier == Tier::Thorough || rng.chance(1, 12);
         let huge = rng.chance(1, 30);
-        let naad = rng.range(0, 3);
+        let long = rng.chance(1, 300); // a long history now and then: dozens of AAD pieces, hundreds of data pieces
+        let (big, huge) = if long { (false, false) } else { (big, huge) };
+        let naad = if long { rng.range(0, 40) } else { rng.range(0, 3) };
         for _ in 0..naad {
             let dseed = match rng.below(10) { 0 => 0, 1 => 1, _ => rng.data_seed() };
             t.ops.push(Op::new(0, F_AAD).len(aead_len(rng, big)).seed(dseed).off(rng.below(32) as u8));
         }
         let mut handles = 1u8;
-        let ndata = rng.range(0, 5);
+        let ndata = if long { rng.range(100, 400) } else { rng.range(0, 5) };
         let fork_ok = rng.chance(1, 2);
         for _ in 0..ndata {
             if fork_ok && handles < 3 && rng.chance(1, 4) {
